@@ -1,14 +1,14 @@
 (* C09 — a Redis-backed structure can be re-attached and shared through its key.
-   Statements only. Proved for the Redis-backed Count-Min sketch (the pattern every structure
-   follows): the constructor writes a metadata hash from which attach rebuilds exactly the
+   Statements only. Proved for the Redis-backed Count-Min sketch, HyperLogLog and cuckoo filter
+   (the pattern every structure follows): the constructor writes a metadata hash from which attach rebuilds exactly the
    immutable handle fields, and every query and update depends on those fields and the store
    only — so a second handle answers every query as the first one on every store, i.e. at any
    later time and after updates through either handle, in this or another process (the hash
-   functions are fixed-seed functions; the harness re-checks that). For the other structures
-   (and every constructor) the same is decided by correspondence: attach is part of each Redis
+   functions are fixed-seed functions; the harness re-checks that). For Bloom and Top-K
+   (and the other constructors) the same is decided by correspondence: attach is part of each Redis
    model and the two handles' answers are compared after every step (partial). *)
-From GX.Model Require Import Base Redis RedisCMS.
-From GX.Proofs Require Import ListLemmas RedisProofs.
+From GX.Model Require Import Base HLL Cuckoo Redis RedisCMS RedisHLL RedisCuckoo.
+From GX.Proofs Require Import ListLemmas RedisProofs AttachProofs.
 
 Theorem C09_cms_attach_rebuilds_handle : forall s rows cols key meta h s',
   rcms_new s rows cols key meta = (Ok h, s') -> (forall r, row_key key r <> meta) ->
@@ -29,7 +29,32 @@ Proof. exact rcms_update_handle_irrelevant. Qed.
 Theorem C09_decimal_roundtrip : forall n, undec (dec n) = Some n.
 Proof. exact undec_dec. Qed.
 
+(* HyperLogLog: FromKey rebuilds the constructor's handle (alpha is a function of m) *)
+Theorem C09_hll_attach_rebuilds_handle : forall s m alpha key meta h s' alpha_of,
+  rhll_new s m alpha key meta = (Ok h, s') -> key <> meta -> alpha_of m = alpha ->
+  rhll_attach s' meta alpha_of = Ok h.
+Proof. exact rhll_attach_after_new. Qed.
+Theorem C09_hll_updates_depend_on_store_only : forall hic s a b x,
+  rh_p a = rh_p b -> rh_key a = rh_key b -> rhll_update hic s a x = rhll_update hic s b x.
+Proof. exact rhll_update_handle_irrelevant. Qed.
+Theorem C09_hll_registers_depend_on_store_only : forall s a b,
+  rh_m a = rh_m b -> rh_key a = rh_key b -> rhll_regs s a = rhll_regs s b.
+Proof. exact rhll_regs_handle_irrelevant. Qed.
+
+(* cuckoo filter: FromKey rebuilds the constructor's handle *)
+Theorem C09_cuckoo_attach_rebuilds_handle : forall s size bsize fpl retries key meta,
+  meta <> key -> (forall i, meta <> len_key (bucket_key key i)) ->
+  fst (rck_attach (snd (rck_new s size bsize fpl retries key meta)) meta) =
+  fst (rck_new s size bsize fpl retries key meta).
+Proof. exact rck_attach_after_new. Qed.
+Theorem C09_cuckoo_lookup_depends_on_store_only : forall h64 s a b x,
+  rq_size a = rq_size b -> rq_bsize a = rq_bsize b -> rq_fpl a = rq_fpl b -> rq_retries a = rq_retries b ->
+  rq_key a = rq_key b -> rck_lookup h64 s a x = rck_lookup h64 s b x.
+Proof. exact rck_lookup_handle_irrelevant. Qed.
+
 Print Assumptions C09_cms_attach_rebuilds_handle.
 Print Assumptions C09_cms_queries_depend_on_store_only.
 Print Assumptions C09_cms_updates_depend_on_store_only.
 Print Assumptions C09_decimal_roundtrip.
+Print Assumptions C09_hll_attach_rebuilds_handle.
+Print Assumptions C09_cuckoo_attach_rebuilds_handle.
